@@ -657,7 +657,7 @@ func translateFile(f *ast.File, ns string) (string, []string) {
 
 func goCode(root string) string {
 	var b strings.Builder
-	b.WriteString("/- GENERATED by extract/go2lean.go from history/history.go and feed/feed.go on every run. Do not edit. -/\nimport Model.GoSem\nimport Model.GoJson\nimport Model.Ansi\n\n")
+	b.WriteString("/- GENERATED by extract/go2lean.go from history/history.go and feed/feed.go on every run. Do not edit. -/\nimport Model.GoSem\nimport Model.GoJson\nimport Model.Ansi\nimport Model.Style\n\n")
 	for _, it := range [][2]string{{"history/history.go", "GenHistory"}, {"feed/feed.go", "GenFeed"}} {
 		f := parseFile(root, it[0])
 		text, errs := translateFile(f, it[1])
@@ -669,8 +669,15 @@ func goCode(root string) string {
 		}
 	}
 	af := parseFile(root, "ansi/ansi.go")
-	text, errs := translateFuncs(af, []string{"Height", "Squash", "CenterVertically", "ReplaceLastLine", "SetLength"}, "GenAnsi")
+	text, errs := translateFuncs(af, []string{"Height", "Squash", "CenterVertically", "ReplaceLastLine", "SetLength"}, "GenAnsi", false)
 	b.WriteString("/-! ## ansi/ansi.go (vertical layout) -/\n\n")
+	b.WriteString(text)
+	for _, e := range errs {
+		b.WriteString("-- UNTRANSLATABLE: " + e + "\n")
+	}
+	sf := parseFile(root, "style/style.go")
+	text, errs = translateFuncs(sf, []string{"background", "foreground", "Bold", "Strikethrough", "Underline", "Italic", "Code", "Highlight", "Color", "Red", "Link", "CodeBlock", "QuoteBlock", "LinkBlock", "Header", "Bullet"}, "GenStyle", true)
+	b.WriteString("\n/-! ## style/style.go -/\n\n")
 	b.WriteString(text)
 	for _, e := range errs {
 		b.WriteString("-- UNTRANSLATABLE: " + e + "\n")
